@@ -2,6 +2,10 @@ import LeptosModel.Proofs.ViewBuild
 namespace Leptos.View
 open Leptos.Dom
 
+-- `R`: how the attribute list of an element relates to the fresh render's (`Eq` for the static
+-- fragment, lookup-equality `AttrsEq` where removal and re-insertion change the order)
+variable {R : List (String × String) → List (String × String) → Prop}
+
 /-! ## insert_before_this -/
 
 mutual
@@ -128,9 +132,9 @@ theorem isElement_of {d : Dom} {x : Id} {r : NodeRec}
 /-- a branch switch (`Either`, `Option`, `AnyView` with another type): build the new state, insert
 it before the old one, unmount the old one — the new state takes the old one's place -/
 theorem replace_spec (a b : View) (old : State) (d : Dom) (p : Id) (pre post : List Id)
-    (hrep : Rep d a old (some p)) (hinv : Inv d old.roots (owned old) p pre post)
-    (hne : old.roots ≠ []) (hb : AllEl AttrsFresh b) :
-    Rep (replaceState old (build b d).2 (build b d).1) b (build b d).2 (some p) ∧
+    (hrep : Rep R d a old (some p)) (hinv : Inv d old.roots (owned old) p pre post)
+    (hne : old.roots ≠ []) (hb : AllEl (AttrsFresh R) b) :
+    Rep R (replaceState old (build b d).2 (build b d).1) b (build b d).2 (some p) ∧
     Res d (replaceState old (build b d).2 (build b d).1) (owned old) (build b d).2.roots
       (owned (build b d).2) p pre post := by
   have hB := build_spec b d hb
